@@ -684,7 +684,7 @@ func c05Correspondence(c *hx.Ctx) {
 		optBool(7, "usePCRDOpt")
 		optBool(8, "appendLosslessLayer")
 		effRate := 20
-		if hasRate && rate > 0 {
+		if hasRate && rate >= 0 {
 			effRate = rate
 		}
 		k := c05Case{BS: bs, BA: ba, Par: c05Par{Rate: effRate}}
